@@ -223,13 +223,16 @@ fn check_case(c: &Case) -> (Vec<Viol>, BTreeMap<String, u64>, u64) {
             scripts.push(Some((p, Answer::ErrorState(k))));
         }
     }
-    for script in scripts {
+    // both entry points: parse_bytes, and parse_words when the input is a whole number of words
+    let words: Option<Vec<u32>> = if c.bytes.len() % 4 == 0 { Some(c.bytes.chunks(4).map(|b| u32::from_le_bytes([b[0], b[1], b[2], b[3]])).collect()) } else { None };
+    let entries: Vec<bool> = if words.is_some() { vec![false, true] } else { vec![false] };
+    for (script, via_words) in scripts.into_iter().flat_map(|s| entries.iter().map(move |e| (s, *e))) {
         runs += 1;
-        let key = |what: &str| format!("C14:{}:{}:{}", c.name.split(|ch| ch == '@' || ch == '[').next().unwrap_or(&c.name), match script { None => "continue".to_string(), Some((_, a)) => format!("{:?}", a) }, what);
+        let key = |what: &str| format!("C14:{}{}:{}:{}", if via_words { "parse_words:" } else { "" }, c.name.split(|ch| ch == '@' || ch == '[').next().unwrap_or(&c.name), match script { None => "continue".to_string(), Some((_, a)) => format!("{:?}", a) }, what);
         let rep = json!({"kind": "c14", "case": c.name, "bytes": hex(&c.bytes), "script": format!("{:?}", script)});
         let r = guarded(|| {
             let mut cons = Scripted { log: vec![], script };
-            let res = rspirv::binary::parse_bytes(&c.bytes, &mut cons);
+            let res = if via_words { rspirv::binary::parse_words(words.as_ref().unwrap(), &mut cons) } else { rspirv::binary::parse_bytes(&c.bytes, &mut cons) };
             (res, cons.log)
         });
         let (res, log) = match r {
